@@ -50,3 +50,17 @@ def region_profile(pid, **kw):
     args.update(kw)
     w.update(args.pop("more_weights", {}))
     return S.Profile(list(w), **args)
+
+
+def slot_feed_profile(pid, downstream="schedule", **kw):
+    """A capacitated, pre-emptive slotted node (long services, heavy load: real interruptions and resumptions) feeding a node of the
+    given kind: customers reach the downstream node carrying whatever state an interruption and resumption left on them."""
+    w = {"slotted": 1.0, "slot_capacitated": 1.0, "slot_preempt": 1.0, "schedule": 1.0, "sched_preempt": 0.3, "priorities": 0.3, "batching": 0.4,
+         "reneging": 0.3, "capacity": 0.25, "discipline": 0.2, "self_loops": 0.2, "cc_waiting": 0.1}
+    args = dict(weights=w, required=("slotted", "slot_capacitated", "slot_preempt"), numeric="grid", max_classes=2, plans=("max_time",),
+                horizon=(8.0, 20.0), budget=600, load="heavy", resumptions=(1, 1), long_service=0.5, node_kinds=("slotted", downstream),
+                stay=0.6, excluded=EXCL.get(pid, ()))
+    args.update(kw)
+    w.update(args.pop("more_weights", {}))
+    return S.Profile(list(w), **args)
+
